@@ -27,7 +27,7 @@ NSHARDS = 16
 
 def plan(tier, seed):
     return [{"shard": i, "nshards": NSHARDS, "nmax": 5 if tier == "quick" else 6,
-             "n_random": 300 if tier == "quick" else 12000, "n_large": 32 if tier == "quick" else 400} for i in range(NSHARDS)]
+             "n_random": 300 if tier == "quick" else 60000, "n_large": 32 if tier == "quick" else 2000} for i in range(NSHARDS)]
 
 
 def cases(desc):
